@@ -97,6 +97,11 @@ FToInt(n, f) ==
 (* scalar int: [v |-> word]; pointer: [obj |-> o, path |-> seq] (obj 0 = null); array: [el |-> seq]; struct: [f |-> record] *)
 Null == [obj |-> 0, path |-> <<>>]
 Structs == CP.structs
+(* A union holds the value of ONE member: [act |-> member name, uv |-> its value].  Storing into a member makes it the active *)
+(* one; reading a member other than the active one reinterprets the object representation (6.5.2.3 footnote 95), which this   *)
+(* layout-free model does not define: the access yields the poison value Pun and the program is discarded as "undefined".     *)
+IsUnion(sid) == "union" \in DOMAIN Structs[sid] /\ Structs[sid].union
+Pun == [pun |-> TRUE]
 FieldOf(sid, name) == LET fs == Structs[sid].fields IN fs[CHOOSE j \in 1..Len(fs) : fs[j].n = name]
 
 RECURSIVE ZeroOf(_)
@@ -106,17 +111,25 @@ ZeroOf(t) ==
     [] t.k = "p" -> Null
     [] t.k = "fp" -> [fn |-> ""]
     [] t.k = "a" -> [el |-> [j \in 1..t.n |-> ZeroOf(t.t)]]
+    [] t.k = "s" /\ IsUnion(t.id) -> [act |-> Structs[t.id].fields[1].n, uv |-> ZeroOf(Structs[t.id].fields[1].t)]
     [] t.k = "s" -> [f |-> [nm \in {Structs[t.id].fields[j].n : j \in 1..Len(Structs[t.id].fields)} |-> ZeroOf(FieldOf(t.id, nm).t)]]
 
 RECURSIVE GetPath(_, _, _)
 GetPath(val, path, j) ==       \* sub-value at path[j..]
   IF j > Len(path) THEN val
+  ELSE IF "pun" \in DOMAIN val THEN val
   ELSE IF "el" \in DOMAIN val THEN GetPath(val.el[path[j] + 1], path, j + 1)
+  ELSE IF "act" \in DOMAIN val THEN (IF val.act = path[j] THEN GetPath(val.uv, path, j + 1) ELSE Pun)
   ELSE GetPath(val.f[path[j]], path, j + 1)
 RECURSIVE SetPath(_, _, _, _)
 SetPath(val, path, j, new) ==
   IF j > Len(path) THEN new
+  ELSE IF "pun" \in DOMAIN val THEN val
   ELSE IF "el" \in DOMAIN val THEN [val EXCEPT !.el[path[j] + 1] = SetPath(@, path, j + 1, new)]
+  ELSE IF "act" \in DOMAIN val THEN
+         (IF val.act = path[j] THEN [val EXCEPT !.uv = SetPath(@, path, j + 1, new)]
+          ELSE IF j = Len(path) THEN [act |-> path[j], uv |-> new]           \* a whole member is stored: it becomes the active one
+          ELSE [act |-> path[j], uv |-> Pun])                                  \* part of an inactive member: the rest is unspecified
   ELSE [val EXCEPT !.f[path[j]] = SetPath(@, path, j + 1, new)]
 
 (* lvalue: [ok, obj, path, t, bw] ; bw = bit-field width or 0 *)
@@ -242,7 +255,8 @@ LoadLV(lv) ==
   ELSE IF lv.t.k = "a" THEN RV([k |-> "p", t |-> lv.t.t], [obj |-> lv.obj, path |-> Append(lv.path, 0)])
   ELSE IF lv.obj = 0 \/ lv.obj \notin DOMAIN mem \/ ~mem[lv.obj].live THEN Bad("dead-or-null-object")
   ELSE LET x == GetPath(mem[lv.obj].val, lv.path, 1) IN
-    IF lv.t.k \in {"i", "f"} THEN [ok |-> TRUE, t |-> lv.t, v |-> x.v, bw |-> lv.bw]
+    IF "pun" \in DOMAIN x THEN Bad("union-inactive-member")
+    ELSE IF lv.t.k \in {"i", "f"} THEN [ok |-> TRUE, t |-> lv.t, v |-> x.v, bw |-> lv.bw]
     ELSE IF lv.t.k \in {"p", "fp"} THEN RV(lv.t, x)
     ELSE [ok |-> TRUE, t |-> lv.t, v |-> x, bw |-> 0]           \* whole struct value
 
@@ -260,7 +274,8 @@ LVal(e) ==
          ELSE LET base == p.v.path[Len(p.v.path)]
                   j == base + ToIntSmall(i.t.n, i.v)
                   arr == GetPath(mem[p.v.obj].val, SubSeq(p.v.path, 1, Len(p.v.path) - 1), 1)
-              IN IF j < 0 \/ j >= Len(arr.el) THEN Bad("index-out-of-bounds")
+              IN IF "el" \notin DOMAIN arr THEN Bad("union-inactive-member")
+                 ELSE IF j < 0 \/ j >= Len(arr.el) THEN Bad("index-out-of-bounds")
                  ELSE LV(p.v.obj, [p.v.path EXCEPT ![Len(p.v.path)] = j], p.t.t, 0))
     [] e.k = "deref" -> (
          LET p == Eval(e.e) IN
@@ -396,6 +411,13 @@ InitVal(t, init) ==      \* returns [ok, val]
   ELSE IF t.k = "a" THEN
     LET parts == [j \in 1..t.n |-> IF j <= Len(init.list) THEN InitVal(t.t, init.list[j]) ELSE [ok |-> TRUE, val |-> ZeroOf(t.t)]] IN
     IF \E j \in 1..t.n : ~parts[j].ok THEN Bad("init-element") ELSE [ok |-> TRUE, val |-> [el |-> [j \in 1..t.n |-> parts[j].val]]]
+  ELSE IF t.k = "s" /\ IsUnion(t.id) THEN
+    \* { x } initialises the first member (6.7.9p17), { .m = x } the designated one; {} is the zero value
+    (IF "um" \in DOMAIN init THEN
+       (LET p == InitVal(FieldOf(t.id, init.um).t, init.i) IN IF ~p.ok THEN p ELSE [ok |-> TRUE, val |-> [act |-> init.um, uv |-> p.val]])
+     ELSE IF Len(init.list) = 0 THEN [ok |-> TRUE, val |-> ZeroOf(t)]
+     ELSE LET f1 == Structs[t.id].fields[1]  p == InitVal(f1.t, init.list[1]) IN
+          IF ~p.ok THEN p ELSE [ok |-> TRUE, val |-> [act |-> f1.n, uv |-> p.val]])
   ELSE IF t.k = "s" THEN
     LET fs == Structs[t.id].fields
         part(j) == IF j <= Len(init.list) THEN
